@@ -173,6 +173,7 @@ def run(rep, thorough):
             report(rep, desc, prof, 'window', w, oc)
     rowwise_probe(rep)
     like_probe(rep, thorough)
+    clear_null_probe(rep)
     nq += month_days(rep)
     nq += date_add_logic(rep, thorough)
     date_interval_probe(rep)
@@ -652,3 +653,30 @@ def date_add_replay(w):
     o = out[0] if out else {}
     got = o['rows'][0][0] if o.get('ok') and o.get('rows') and not o.get('panicked') else ('panic' if o.get('panicked') else o.get('err'))
     return {'reproduced': got != exp.isoformat(), 'how': {'stmts': stmts, 'engine': got, 'expected': exp.isoformat()}}
+
+
+def clear_null_probe(rep):
+    """`clear_null` zeroes the raw bit under NULL slots of every boolean result (comparisons, NOT, OR, LIKE, IN) -- filters
+    and join conditions read those raw bits.  Its body is portable-SIMD code the interpreter does not execute: engine M uses
+    the contract data[i] &= valid[i].  The contract is checked here against the real function for every batch length
+    0..=200 (and around 256 / 1024) with four raw / validity patterns, by the native replay binary (concrete)."""
+    from kani import run as krun
+    rep.cov['programs'] += 1
+    try:
+        krun.ensure_replay_fn('c14_clear_null_probe')
+        line = krun.native_replay('c14_clear_null_probe', [[0]])
+    except Exception as ex:
+        rep.obligation(False)
+        rep.fail_inconclusive('clear_null contract probe did not run: %s' % str(ex)[:200])
+        return
+    if line.startswith('REPLAY ok'):
+        rep.obligation(True)
+        rep.sample({'kernel': 'clear_null', 'obligation': 'contract probe (concrete)', 'verdict': 'data[i] &= valid[i] for every batch length 0..=200, 255..257, 1023..1025'}, cap=1)
+        return
+    if not line.startswith('REPLAY panic'):
+        rep.obligation(False)
+        rep.fail_inconclusive('clear_null contract probe: %s' % line[:200])
+        return
+    what = 'the raw bit under a NULL slot of a boolean result is not cleared (filters and join conditions read it): %s' % line[:300]
+    out = rep.counterexample('contract:clear_null', what[:500], {'native': line}, True)
+    rep.obligation(out == 'known')
